@@ -11,7 +11,7 @@ from pyvc.contract import Registry
 from pyvc.source import SourceDB
 from pyvc.verify import Verifier
 
-CONTRACT_MODULES = ['bitops', 'mdquery', 'script', 'coder', 'decoder', 'encoder', 'lemmas', 'dataquery', 'bufr']
+CONTRACT_MODULES = ['bitops', 'mdquery', 'script', 'coder', 'decoder', 'encoder', 'lemmas', 'dataquery', 'bufr', 'tables', 'descriptors']
 SPEC_MODULES = ['bits', 'coder']
 
 
